@@ -122,7 +122,7 @@ def xstmOfP (lay : RevLay) (es : List XE) (size : Nat) (root : Nat × Nat) (pv :
   ⟨[], natDigits lay.xnum, (wsReq (xspellP lay es size root pv).2).1, [48], [32],
    (wsOpt (wsReq (xspellP lay es size root pv).2).2).1, [60, 60] ++ (xspellP lay es size root pv).1,
    (wsOpt (wsReq (xspellP lay es size root pv).2).2).1, [10], xdataOf lay es, [10], [10],
-   canonKvs (xallOfP lay es size root pv), 4⟩
+   DocSpec.canonKvs (xallOfP lay es size root pv), 4⟩
 
 theorem renderXrefStream_eqP (lay : RevLay) (pos : Nat) (es : List XE) (size : Nat) (root : Nat × Nat) (pv : Option Nat) :
     renderXrefStream lay pos es size (some root) pv =
@@ -159,7 +159,7 @@ theorem xstm_okP (lay : RevLay) (es : List XE) (size : Nat) (root : Nat × Nat) 
   obtain ⟨hok, hnn, hnd⟩ := xall_okP lay es size root pv hlen h hpv
   obtain ⟨n1, n2, n3⟩ := natDigits_spec lay.xnum hnum
   obtain ⟨body, sep, hb, hse, hsep⟩ := spellRaw_map 3 rawF (xallOfP lay es size root pv) [] lay.ch hok hnd (by simp)
-  have hsp : Spells 4 (.dict (canonKvs (xallOfP lay es size root pv))) ([60, 60] ++ (xspellP lay es size root pv).1) := by
+  have hsp : Spells 4 (.dict (DocSpec.canonKvs (xallOfP lay es size root pv))) ([60, 60] ++ (xspellP lay es size root pv).1) := by
     have hb' : (xspellP lay es size root pv).1 = body ++ (sep ++ [62, 62]) := hb
     rw [hb', ← dictOf_eq_canon _ hnn]
     exact Spells.dict 3 _ body sep hse hsep
